@@ -281,7 +281,7 @@ PROPS = {
         assumptions=['the scripted handler and the client read payloads only through the public API', 'manager model theorems (Drpc.Props.ManagerSys) hold over ReachP / ReachServe / ReachClient: fresh stream ids, callers of one role per manager, an arriving invoke has an id above the last forwarded one, (server) one NewServerStream call at a time; the deadlock theorems assume EnvQuiet: every stream the manager created has finished and sent its token (discharged for terminated streams, unless an operation is parked in the transport / Marshal / Unmarshal, by the stream model: terminated_quiescent_all_done) and a closed transport fails a pending read; stream.Cancel is assumed not to block on the stream\'s transition lock (the known C04 findings are exactly the cases where it does)'],
     ),
     "C04": dict(
-        modules=['Drpc.Props.C04', 'Drpc.Tie.Manager'],
+        modules=['Drpc.Props.C04', 'Drpc.Props.ManagerSys', 'Drpc.Tie.Manager'],
         suites=['e2e'],
         rule="e2e suite, family cancel: a streaming RPC (5 handler programs) with a random set of 1-3 operations in flight (receive, small/large send, second send, half-close, close) on a stalled or flowing transport, both cancel modes; the context is cancelled and the process run to quiescence: pending calls, error identities, later calls, a probe RPC on the connection, and the handler's context are judged. Known findings are matched by signature",
         trusted=COMMON_TRUST + ["Go runtime (goroutines, sync, channels) trusted; the two-endpoint behaviour is explored, not modelled: "
@@ -323,7 +323,7 @@ PROPS = {
         assumptions=["user encodings do not retain the lent receive buffer"],
     ),
     "C05": dict(
-        modules=["Drpc.Props.C05", "Drpc.Tie.C09", "Drpc.Tie.Manager"],
+        modules=["Drpc.Props.C05", "Drpc.Props.ManagerSys", "Drpc.Tie.C09", "Drpc.Tie.Manager"],
         suites=["e2e", "stream"],
         rule="e2e fault family: random workloads of 1-2 RPCs over a manually stepped transport; at I/O step k (every k in the thorough "
              "tier, a sample in quick) the transport of either endpoint breaks (all its reads and writes fail), or an end is taken down "
